@@ -286,3 +286,15 @@ CHECKS["C16"] = dict(
     design_ref="DESIGN.md 9/C16",
     level_text="Exhaustive within bounds on the real containers; blocking on the policy's mutexes is handled by the scheduler, so lock-order deadlocks are found as such.",
 )
+
+CHECKS["C22"] = dict(
+    title="spin locks and node monitors",
+    units=[dict(name="locks", src="harness/locks.cpp")],
+    rule="every schedule with <= c preemptions (c up to 6 for two threads, 3 for three) of lock/unlock/try_lock programs with a scheduling point inside each critical section, on 1..3 locks or nodes; "
+         "outcome = the order in which critical sections were entered and left; every outcome is non-trivial (two threads compete for a lock in every program)",
+    explanation="spin_lock, reentrant_spin_lock (nesting 2, try_lock by another thread between the nested unlocks), lock_array (two cells, three hints so two hints share a cell), injecting_monitor, "
+                "pool_monitor over vyukov_queue_pool (capacity 1 with the shipped spin lock, capacity 2 with a mutex; 3 nodes): occupancy of every critical section <= 1, a reentrant lock is released only by its "
+                "owner's last unlock, a node inside its critical section owns a pool lock that no other in-use node shares, every pool lock is back in the pool at the quiescent point; deadlock/livelock = violation",
+    design_ref="DESIGN.md 9/C22, 7.5",
+    level_text="Exhaustive within bounds on the real locks and monitors (for two threads the bound is high enough to cover most interleavings of these short programs).",
+)
